@@ -69,7 +69,8 @@ class TimeEncoderMixIn(object):
 
             numbers = list(numbers)
 
-            searchIndex = min(numbers.index(self.DOT_CHAR) + 4, len(numbers) - 1)
+            # look at every digit of the fraction, however long it is
+            searchIndex = len(numbers) - 1
 
             while numbers[searchIndex] != self.DOT_CHAR:
                 if numbers[searchIndex] == self.ZERO_CHAR:
